@@ -1327,8 +1327,12 @@ def _revocation_yaml(entries, signature):
     else:
         lines.append("  revoked_playbooks:")
         for name, hx in entries:
-            lines.append("    - name: %s" % _dq(name))
-            lines.append("      hash: %s" % (hx if re.search("[a-df]", hx) else '"%s"' % hx))
+            hash_line = "hash: %s" % (hx if re.search("[a-df]", hx) else '"%s"' % hx)
+            if name is None:       # an entry without a name: only the hash matters
+                lines.append("    - " + hash_line)
+            else:
+                lines.append("    - name: %s" % _dq(name))
+                lines.append("      " + hash_line)
             lines.append("")
     return "\n".join(lines) + "\n"
 
@@ -1384,8 +1388,17 @@ def check_verify(case):
             other = hashlib.sha256(("%s %d" % (kind, i)).encode()).hexdigest()
             entries.append(("other %d" % i, other))
             revoked.add(bytes.fromhex(other))
+    # entry names are labels for humans: several entries may share one, or carry none at all
+    style = case.get("rev_names", "unique")
+    if style == "same":
+        entries = [("revoked playbook", hx) for _n, hx in entries]
+    elif style == "none":
+        entries = [(None, hx) for _n, hx in entries]
+    elif style == "pairs":
+        entries = [("batch %d" % (k // 2), hx) for k, (_n, hx) in enumerate(entries)]
     if case.get("revoked") is None:
         entries = None
+    labels.append("rev-names=" + style)
     unsigned_list = _revocation_yaml(entries, "AAAA")
     lo = observe(pv.load_playbook_yaml(unsigned_list)[0])
     if lo[0] != "ok":
@@ -1444,8 +1457,10 @@ def _verify_case(draw):
         b = _apply_edit(draw, tree, kind, excluded if region == "excluded" else None)
     revoked = draw(st.one_of(st.lists(st.sampled_from(["self", "edited", "other", "uncleaned", "name-is-hash", "other"]),
                                       min_size=1, max_size=4),
-                             st.sampled_from([None, [], ["self"], ["other", "self"]])))
-    return {"mode": mode, "a": tree, "b": b, "revoked": revoked}
+                             st.sampled_from([None, [], ["self"], ["other", "self"], ["self", "other"],
+                                              ["self", "other", "other"], ["other", "self", "other"]])))
+    return {"mode": mode, "a": tree, "b": b, "revoked": revoked,
+            "rev_names": draw(st.sampled_from(["unique", "unique", "same", "none", "pairs"]))}
 
 
 def strat_verify(tier):
@@ -1489,7 +1504,73 @@ def selftest():
     assert type(loaded).__name__ == "CommentedMap"
 
 
+# ---------------------------------------------------------------------------------------------
+# text-level insertion: a repeated mapping key
+# ---------------------------------------------------------------------------------------------
+
+_TOPKEY = re.compile(r"^(- |  )([^\s#'\"\[\]{}&*!|>%@`-][^:#]*|'[^']*'|\"[^\"]*\"):( .*)?$")
+
+
+def check_dupkey(case):
+    """An element inserted into the playbook *text* under a key that already exists (a second `tasks:`,
+    a second `become:`): the playbook is either refused or its digest differs from the signed one."""
+    pv = _pv()
+    text_a = emit_yaml(norm(case["a"]))
+    try:
+        doc = pv.load_playbook_yaml(text_a)
+    except pv.PlaybookVerificationError:
+        return {"nontrivial": False, "labels": ["yaml-a-unloadable"]}
+    oa = observe(doc[0])
+    if oa[0] != "ok":
+        return {"nontrivial": False, "labels": ["a:" + oa[0]]}
+    lines = text_a.split("\n")
+    cands = []
+    for i, l in enumerate(lines):
+        m = _TOPKEY.match(l)
+        if m and m.group(2) not in ("hosts", "vars"):
+            cands.append((i, m.group(2)))
+    if not cands:
+        return {"nontrivial": False, "labels": ["no-top-level-key-to-repeat"]}
+    i, key = cands[case["where"] % len(cands)]
+    new = "  %s: %s" % (key, case["value"])
+    pos = case["at"]
+    if pos == "end":
+        lines_b = [l for l in lines if l != ""] + [new, ""]
+    else:
+        # directly before the original key (the first line of the play carries the "- " marker)
+        if lines[i].startswith("- "):
+            lines_b = lines[:i] + ["- " + new[2:], "  " + lines[i][2:]] + lines[i + 1:]
+        else:
+            lines_b = lines[:i] + [new] + lines[i:]
+    text_b = "\n".join(lines_b)
+    labels = ["at=" + pos]
+    try:
+        docb = pv.load_playbook_yaml(text_b)
+    except pv.PlaybookVerificationError:
+        return {"nontrivial": True, "labels": labels + ["refused"], "key": [text_a, key, pos]}
+    if not isinstance(docb, list) or len(docb) != 1 or not isinstance(docb[0], dict):
+        return {"nontrivial": False, "labels": labels + ["b-not-one-play"]}
+    ob = observe(docb[0])
+    if ob[0] == "ok" and ob[1] == oa[1]:
+        raise Violation("a playbook text with an inserted element under the repeated key %r loads and has the "
+                        "digest of the original (the signature covers only one of the two values)" % key,
+                        yaml_a=text_a, yaml_b=text_b)
+    return {"nontrivial": True, "labels": labels + ["loaded:" + ob[0]], "key": [text_a, key, pos]}
+
+
+@st.composite
+def _dupkey_case(draw):
+    tree, _excluded = draw(_play())
+    return {"a": tree, "where": draw(st.integers(0, 7)), "at": draw(st.sampled_from(["end", "before"])),
+            "value": draw(st.sampled_from(["dupZ", "[1, 2]", "{k: v}", "''", "~", "true", "0"]))}
+
+
+def strat_dupkey(tier):
+    return _dupkey_case()
+
+
 SUBS = [
+    Sub("dupkey", check_dupkey, strategy=strat_dupkey, quick=200, thorough=3000, workers_quick=2, workers_thorough=8),
     Sub("exhaustive", check_pair, custom=exhaustive, workers_quick=1, workers_thorough=1, budget_quick=60,
         budget_thorough=600),
     Sub("digest", check_pair, strategy=strat_digest, quick=400, thorough=5000, workers_quick=4, workers_thorough=16),
